@@ -83,7 +83,7 @@ def one_grammar(spec, R, batch, stats, quick):
         ]
         n0 = 3 if quick else 5
         nops = 4 if quick else 12
-        if not any(c["abstract"] and c["name"] == spec["start"] for c in spec["classes"]):
+        if not any(c["abstract"] and c["name"] == spec["start"] for c in b.spec["classes"]):
             nops *= 6       # concrete starting symbol: tree crossover really exchanges subtrees; go several generations deep
         for rname, kind, rep in reps:
             pool = []
